@@ -30,6 +30,9 @@ type Semaphore struct {
 }
 
 func NewSemaphore(max int) Semaphore {
+	if max < 0 {
+		max = 0
+	}
 	return Semaphore{c: make(chan struct{}, max)}
 }
 
